@@ -16,6 +16,7 @@ package props
 
 import (
 	"bytes"
+	"crypto"
 	"crypto/ecdh"
 	"crypto/ecdsa"
 	"crypto/ed25519"
@@ -30,6 +31,7 @@ import (
 	"fmt"
 	"math/big"
 	"sort"
+	"strings"
 
 	"github.com/shogo82148/go-cbor"
 	"github.com/shogo82148/goat/cose"
@@ -284,6 +286,75 @@ func c09CertConsistent(k *jwk.Key) string {
 	return ""
 }
 
+// c09SentChain re-validates an accepted JWK against the certificate chain that was SENT (not against what
+// the library kept): chain[i].Raw = the DER sent, the public key of the DER sent as x5c[0] (parsed afresh) is
+// the key, x5t / x5t#S256 are digests of exactly that DER, and re-marshalling emits the same chain.
+func c09SentChain(k *jwk.Key, sentJWK map[string]any) string {
+	arr, _ := sentJWK["x5c"].([]any)
+	if len(arr) == 0 {
+		return ""
+	}
+	var sent [][]byte
+	for _, e := range arr {
+		str, _ := e.(string)
+		der, err := base64.StdEncoding.DecodeString(str)
+		if err != nil {
+			return "accepted although x5c holds undecodable base64"
+		}
+		sent = append(sent, der)
+	}
+	chain := k.X509CertificateChain()
+	if len(chain) != len(sent) {
+		return fmt.Sprintf("chain of %d certificates kept for %d sent", len(chain), len(sent))
+	}
+	for i := range sent {
+		if !bytes.Equal(chain[i].Raw, sent[i]) {
+			return fmt.Sprintf("x5c[%d].Raw is not the certificate that was sent", i)
+		}
+	}
+	fresh, err := x509.ParseCertificate(sent[0])
+	if err != nil {
+		return "x5c[0] as sent is not a certificate"
+	}
+	type equaler interface{ Equal(x crypto.PublicKey) bool }
+	if fp, ok := fresh.PublicKey.(equaler); !ok || k.PublicKey() == nil || !fp.Equal(k.PublicKey()) {
+		return "the certificate sent as x5c[0] is for another key"
+	}
+	s1, s2 := sha1.Sum(sent[0]), sha256.Sum256(sent[0])
+	if t := k.X509CertificateSHA1(); t != nil && !bytes.Equal(t, s1[:]) {
+		return "x5t is not the SHA-1 digest of the certificate sent as x5c[0]"
+	}
+	if t := k.X509CertificateSHA256(); t != nil && !bytes.Equal(t, s2[:]) {
+		return "x5t#S256 is not the SHA-256 digest of the certificate sent as x5c[0]"
+	}
+	var out []byte
+	var merr error
+	if p, _ := vf.Recover(func() { out, merr = k.MarshalJSON() }); p || merr != nil {
+		return fmt.Sprintf("re-marshalling the accepted key fails: %v", merr)
+	}
+	back, _ := c08DecodeObj(out)
+	arr2, _ := back["x5c"].([]any)
+	if len(arr2) != len(sent) {
+		return "re-marshalled x5c has another length"
+	}
+	for i := range sent {
+		str, _ := arr2[i].(string)
+		if str != base64.StdEncoding.EncodeToString(sent[i]) {
+			return fmt.Sprintf("re-marshalled x5c[%d] differs from the certificate sent", i)
+		}
+	}
+	for _, n := range []string{"x5t", "x5t#S256"} {
+		want := c08b64.EncodeToString(s1[:])
+		if n == "x5t#S256" {
+			want = c08b64.EncodeToString(s2[:])
+		}
+		if got, _ := back[n].(string); got != want {
+			return "re-marshalled " + n + " is not the digest of the certificate sent as x5c[0]"
+		}
+	}
+	return ""
+}
+
 // ---------------------------------------------------------------------------------------------
 // JWK mutations
 
@@ -323,6 +394,22 @@ var c09OKPMuts = []string{"none", "x-short", "x-long", "x-empty", "d-short", "d-
 	"crv-missing", "x-missing", "x-number", "d-null", "x-notb64"}
 var c09CommonMuts = []string{"x5c-other-key", "x5c-garbage-b64", "x5c-not-cert", "x5c-number", "x5c-url-b64", "x5t-flip", "x5t-prefix", "x5t-empty",
 	"x5t256-flip", "x5t256-prefix", "x5t-only", "x5t-with-matching-x5c", "x5u-bad", "key_ops-number", "key_ops-mixed", "use-number", "alg-null", "kid-number"}
+
+// certificate chains of 2-3 certificates: chain-<shape>-<thumbprints>; thumbprints: absent, t0 (digests of
+// x5c[0] — correct), t1 (digests of x5c[1]), garbage, mixed (x5t of cert 0, x5t#S256 of cert 1), mixed2
+var c09ChainVariants = []string{"absent", "t0", "t1", "garbage", "mixed", "mixed2"}
+
+func c09ChainMuts() []string {
+	var out []string
+	for _, sh := range c08ChainShapes {
+		for _, v := range c09ChainVariants {
+			out = append(out, "chain-"+sh+"-"+v)
+		}
+	}
+	return out
+}
+
+func init() { c09CommonMuts = append(c09CommonMuts, c09ChainMuts()...) }
 
 // c09MutateJWK returns the mutated JWK object for material m.
 func c09MutateJWK(r *vf.Rand, m c08Mat, mut string, serial int64) map[string]any {
@@ -584,6 +671,30 @@ func c09MutateJWK(r *vf.Rand, m c08Mat, mut string, serial int64) map[string]any
 		}
 	case "x5t-only":
 		j["x5t"] = c08b64.EncodeToString(r.Bytes(20))
+	default:
+		if strings.HasPrefix(mut, "chain-") && own != nil {
+			parts := strings.SplitN(mut, "-", 3)
+			chain := append([][]byte{own}, c08ChainTail(r, m, parts[1], serial+2)...)
+			var texts []any
+			for _, der := range chain {
+				texts = append(texts, std(der))
+			}
+			j["x5c"] = texts
+			a1, a2 := sha1.Sum(chain[0]), sha256.Sum256(chain[0])
+			b1, b2 := sha1.Sum(chain[1]), sha256.Sum256(chain[1])
+			switch parts[2] {
+			case "t0":
+				j["x5t"], j["x5t#S256"] = c08b64.EncodeToString(a1[:]), c08b64.EncodeToString(a2[:])
+			case "t1":
+				j["x5t"], j["x5t#S256"] = c08b64.EncodeToString(b1[:]), c08b64.EncodeToString(b2[:])
+			case "garbage":
+				j["x5t"], j["x5t#S256"] = c08b64.EncodeToString(r.Bytes(20)), c08b64.EncodeToString(r.Bytes(32))
+			case "mixed":
+				j["x5t"], j["x5t#S256"] = c08b64.EncodeToString(a1[:]), c08b64.EncodeToString(b2[:])
+			case "mixed2":
+				j["x5t"], j["x5t#S256"] = c08b64.EncodeToString(b1[:]), c08b64.EncodeToString(a2[:])
+			}
+		}
 	case "x5u-bad":
 		j["x5u"] = "http://[::1"
 	case "key_ops-number":
@@ -659,6 +770,24 @@ func execC09(c *vf.Ctx, d *vf.Driver, cs c09Case) {
 		mw, merr := d.Call("c08.parse", []vf.Wire{vf.FromJSON(obj)}, StdOracle)
 		mOut, mKey := c08ModelOut(mw, merr)
 		c.Case(string(kb), goOut.Tag != "err" || (goOut.Cls != "missing" && goOut.Cls != "type"))
+		if strings.HasPrefix(cs.Mut, "chain-") {
+			if _, has := cs.JWK["x5c"]; has {
+				// independent expectation: a genuine chain is accepted iff the thumbprints are absent or those of x5c[0]
+				variant := cs.Mut[strings.LastIndex(cs.Mut, "-")+1:]
+				wantOK := variant == "absent" || variant == "t0"
+				c.Count(fmt.Sprintf("chain:%s:accepted=%v", variant, goOut.Tag == "ok"))
+				if wantOK && goOut.Tag != "ok" {
+					c08Fail(c, "property", "c09-chain-valid-rejected", "a JWK with its genuine certificate chain ("+cs.Mut+") is rejected", cs, goOut.String(), "ok")
+				} else if !wantOK && goOut.Tag == "ok" {
+					c08Fail(c, "property", "c09-chain-wrong-thumbprint-accepted", "thumbprints that are not those of x5c[0] are accepted ("+cs.Mut+")", cs, "ok", "err:x5t")
+				}
+			}
+		}
+		if goOut.Tag == "ok" && k != nil {
+			if why := c09SentChain(k, cs.JWK); why != "" {
+				c08Fail(c, "property", "c09-accepted-chain-corrupted:"+cs.Mat.Kind, "accepted key does not carry the chain that was sent: "+why+" ("+cs.Mut+")", cs, "accepted", why)
+			}
+		}
 		if !c09Cmp(c, cs, "jwk.ParseKey", goOut, mOut) {
 			return
 		}
@@ -1260,6 +1389,12 @@ func runC09(c *vf.Ctx) {
 		}
 	}
 	add(c08GenRSAMat(sr, true), c09RSAMuts)
+	for _, mk := range []c08Mat{c08GenEC(sr, "P-384", false), c08GenEC(sr, "P-521", true), c08GenRSAMat(sr, false), c08GenOKP(sr, "Ed25519", false)} {
+		for _, mut := range c09ChainMuts() {
+			serial += 10
+			sys = append(sys, c09Case{Surface: "jwk", Mat: mk, Mut: mut, JWK: c09MutateJWK(sr, mk, mut, serial)})
+		}
+	}
 	mp := c08GenRSA(sr, 768, 65537, 3)
 	mp.Pre = true
 	for _, crv := range c08OKPs {
